@@ -30,7 +30,7 @@ meta = {
 }
 try:
     old = json.load(open(f"{d}/meta.json"))
-    for k in ("rebased", "also_caught_by"):
+    for k in ("rebased", "also_caught_by", "history"):
         if k in old:
             meta[k] = old[k]
     if "deterministic" in old.get("confirmed_by", ""):
